@@ -31,6 +31,7 @@ class Sched:
         self.max_steps = max_steps
         self.choices = []          # the schedule that was actually executed (worker id per step)
         self.stuck = None
+        self.hint = None           # set by the lock wrapper when the transaction lock has just been released
 
     def spawn(self, wid, fn):
         w = _Worker(wid, fn)
@@ -98,6 +99,22 @@ def stay_then_switch(switch_points):
         if not isinstance(switch_points, dict) and step in switch_points and last in runnable and len(runnable) > 1:
             i = runnable.index(last)
             return runnable[(i + 1) % len(runnable)]
+        if last in runnable:
+            return last
+        return runnable[0]
+    return pol
+
+
+def switch_on_release(sched_ref):
+    """Run the current worker, but right after it released the transaction lock let another runnable worker go first
+    (the window between release_lock() and the rest of the releasing thread's clean-up)."""
+    def pol(runnable, step, last):
+        s = sched_ref[0]
+        if s is not None and s.hint == 'released':
+            s.hint = None
+            others = [w for w in runnable if w != last]
+            if others:
+                return others[0]
         if last in runnable:
             return last
         return runnable[0]
